@@ -4,6 +4,7 @@
 with the change (demo files moved aside). Usage: seeded_confirm.py <worktree> <n> <property>"""
 import json, os, re, shutil, subprocess, sys, glob, time
 wt, n, prop = sys.argv[1], sys.argv[2], sys.argv[3]
+extra_features = sys.argv[4] if len(sys.argv) > 4 else None   # e.g. "chrono": the change lives in a cfg(feature) branch
 env = dict(os.environ, CARGO_NET_OFFLINE="true")
 def run(cmd, **kw):
     r = subprocess.run(cmd, cwd=wt, env=env, stdout=subprocess.PIPE, stderr=subprocess.STDOUT, text=True, **kw)
@@ -16,6 +17,8 @@ crate = os.path.relpath(demo, wt).split("/")[0]
 alldemos = glob.glob(os.path.join(wt, "*/tests/demo*.rs"))
 assert run(["git", "diff", "--quiet"])[0] == 0, "worktree not clean"
 feat = ["--features", "async"] if crate == "mpd_protocol" else []
+if extra_features:
+    feat = ["--features", extra_features]
 democmd = ["cargo", "test", "--offline", "-p", crate] + feat + ["--test", "demo%s" % n]
 res = {}
 rc, out = run(democmd); res["a_demo_on_clean_tree"] = {"rc": rc, "tail": out.strip().splitlines()[-3:]}
